@@ -893,14 +893,38 @@ def _twin(op, scratch, entropy, draws, seed_override=None):
         random.random()
     g0 = launch.global_state_digest()
     t0 = launch.SIM_THREADS["tasks"]
-    with Tripwires() as tw:
+    _preimport(op)  # module import (torch, h5py, tqdm's monitor thread ...) is not part of the operation
+    # ... and its own wall clock, process id and directory listing order
+    with launch.SimEnv(entropy) as env, Tripwires() as tw:
         out = _run_op(op, scratch, seed_override=seed_override)
     g1 = launch.global_state_digest()
     sites = set(tw.sites)
+    for what, n in sorted(env.reads.items()):
+        sites.add(f"reads-{what}({n})")
     if launch.SIM_THREADS["tasks"] > t0:
         # the operation handed work to a thread pool: the simulator ran those tasks in this twin's own seeded order
         sites.add(f"thread-pool-tasks-in-seeded-order({launch.SIM_THREADS['tasks'] - t0})")
     return out, g0 == g1, sites
+
+
+def _preimport(op):
+    import importlib
+
+    for m in ("batchie.retrospective", "batchie.sampling", "batchie.core", "batchie.data", "batchie.distance.mse",
+              "batchie.distance_calculation", "batchie.policies.k_per_sample", "batchie.scoring.gaussian_dbal",
+              "batchie.scoring.main", "batchie.scoring.rand", "batchie.scoring.size", "batchie.models.sparse_combo",
+              "batchie.models.sparse_combo_interaction", "batchie.models.main", "batchie.introspection", "engines.prepsim"):
+        try:
+            importlib.import_module(m)
+        except ImportError:
+            pass
+    if op["kind"].startswith("p:"):
+        for m in ("prepare_retrospective_simulation", "train_model", "calculate_scores", "calculate_distance_matrix",
+                  "select_next_plate", "reveal_plate", "evaluate_model", "extract_screen_metadata"):
+            try:
+                importlib.import_module("batchie.cli." + m)
+            except ImportError:
+                pass
 
 
 def _purge_batchie_modules():
